@@ -7,7 +7,7 @@ from wire import go_float_str, from_wire
 PID = "C13"
 LITS = ["", "a", " ", "-", "}", ":", "x}y", "é", "日本", "}}", ": ", ".", ",", "'", "\\", "#", "a b"]
 ENVV = {"HOME": "/home/u", "NUM": "42", "BOOLISH": "true", "NULLISH": "null", "FLT": "1.5", "SP": "a b", "EMPTY": "",
-        "BRACE": "{x}", "DOLLAR": "$5", "UNI": "é"}
+        "BRACE": "{x}", "DOLLAR": "$5", "UNI": "é", "EQ": "host=db port=5432", "B64": "dGVzdA==", "EQLEAD": "=x", "REFTXT": "{a}|{$env:HOME}"}
 
 
 def fmt(v):
@@ -22,7 +22,9 @@ def gen_case(rng):
     doc = {}
     scal = {}
     for k in rng.sample(gen.KEYS, rng.randint(1, 4)):
-        v = rng.choice([0, 1, -7, 123456789, True, False, 0.5, 1.5, 2.0, 1e21, "x", "y z", "", "1", "é"])
+        v = rng.choice([0, 1, -7, 123456789, True, False, 0.5, 1.5, 2.0, 1e21, "x", "y z", "", "1", "é",
+                        # text that looks like a later reference: substitution must not rescan substituted values
+                        "<{a}>", "{b}", "{c}{d}", "{m.n}", "{$env:NUM}", "{e"])
         doc[k] = v
         scal[k] = v
     nested = {"n": rng.choice([3, "deep", 2.25])}
@@ -52,6 +54,7 @@ def gen_case(rng):
         doc["t"] = "$\"" + "".join(segs) + "\""
         c = chain_case([doc], env=ENVV, tail=("outdocs",))
         c["expect"] = ("ok", dict(doc, t=expect)) if ok else ("err", None)
+        c["noshrink"] = True      # the expectation belongs to this exact document
         return c
     if r < 0.8:
         name = rng.choice(list(ENVV) + ["UNSET", "NOPE"])
@@ -66,6 +69,7 @@ def gen_case(rng):
             doc2 = dict(doc, t="$env:" + name)
             exp = dict(doc, t=ENVV.get(name))
         c = chain_case([doc2], env=ENVV, tail=("outdocs",))
+        c["noshrink"] = True
         if name not in ENVV:
             c["expect"] = ("err", None)
         elif ENVV[name] in ("$5",):
